@@ -50,7 +50,7 @@ const (
 )
 
 // degenerateOpen: is either manifestation still listed as open?
-func degenerateOpen() bool { return degenerateOpen() || pbt.Open(findingDegenerateTie) }
+func degenerateOpen() bool { return pbt.Open(findingDegenerate) || pbt.Open(findingDegenerateTie) }
 
 // ---------------------------------------------------------------- case
 
@@ -302,8 +302,9 @@ func run(c Case, r *pbt.Rec) error {
 		return nil
 	}
 
-	rangeChanged, restarts, removedLive := false, 0, false
+	rangeChanged, restarts, removedLive, maxRegions := false, 0, false, 0
 	for i, op := range c.Ops {
+		maxRegions = max(maxRegions, len(m))
 		when := fmt.Sprintf("step %d %s", i, describe(op))
 		switch op.Kind {
 		case "hb":
@@ -442,6 +443,9 @@ func run(c Case, r *pbt.Rec) error {
 	if len(m) >= 2 {
 		r.Label("final-regions>=2")
 	}
+	if maxRegions >= 3 {
+		r.Label("regions>=3-at-once")
+	}
 	if rangeChanged {
 		// the sweep after the accepting step looked up the old and the new boundary
 		r.NT()
@@ -496,8 +500,12 @@ func genRange(t *rapid.T, c *Case) (string, string) {
 	s := rapid.SampledFrom(grid).Draw(t, "start")
 	e := rapid.SampledFrom(grid).Draw(t, "end")
 	if degenerate(s, e) {
-		if degenerateOpen() {
+		open := degenerateOpen()
+		if open {
 			c.Excl++
+		}
+		// when the finding is not listed, keep a quarter of the degenerate draws
+		if open || rapid.IntRange(0, 3).Draw(t, "keep-degenerate") != 2 {
 			s, e = e, s // now s < e, or s == e (still degenerate)
 			if s == e {
 				e = ""
@@ -515,7 +523,7 @@ func genSeq(t *rapid.T) Case {
 		switch k := rapid.IntRange(0, 19).Draw(t, "kind"); {
 		case k < 11:
 			op := Op{Kind: "hb", ID: ids.Draw(t, "id"), Ver: rapid.Uint64Range(0, 3).Draw(t, "ver"), Conf: rapid.Uint64Range(0, 3).Draw(t, "conf")}
-			if rapid.IntRange(0, 39).Draw(t, "id0") == 0 {
+			if rapid.IntRange(0, 39).Draw(t, "id0") == 23 {
 				op.ID = 0
 			}
 			op.Start, op.End = genRange(t, &c)
@@ -526,7 +534,7 @@ func genSeq(t *rapid.T) Case {
 			c.Ops = append(c.Ops, op)
 		case k < 14:
 			op := Op{Kind: "rm", ID: ids.Draw(t, "id")}
-			if rapid.IntRange(0, 19).Draw(t, "id0") == 0 {
+			if rapid.IntRange(0, 29).Draw(t, "id0") == 17 {
 				op.ID = 0
 			}
 			c.Ops = append(c.Ops, op)
